@@ -25,21 +25,26 @@ Definition eqlist (e : peq Q) : list Q := [ea e; eb e; ec e; ed e].
 
 (* a sign may only be compared when the exact value is away from zero, unless arithmetic was exact *)
 Definition band : Q := 1 # 100000000.
-Definition decided (exact : bool) (sd : Q) : bool := exact || negb (Qle_bool (Qabs sd) band).
-Definition all_decided exact pl ps := forallb (fun p => decided exact (plane_sd QOps pl p)) ps.
+Definition vmag (v : vec3 Q) : Q := Qmax' (Qabs (vx v)) (Qmax' (Qabs (vy v)) (Qabs (vz v))).
+(* magnitude of the data: rounding of a signed distance is relative to it *)
+Definition mag (pl : plane Q) (ps : list (vec3 Q)) : Q :=
+  fold_left (fun m p => Qmax' m (vmag p)) ps (Qmax' 1 (vmag (pref pl))).
+Definition decided (exact : bool) (m sd : Q) : bool := exact || negb (Qle_bool (Qabs sd) (band * m)).
+Definition all_decided exact pl ps := forallb (fun p => decided exact (mag pl ps) (plane_sd QOps pl p)) ps.
 
 Definition check_case (c : case) : bool :=
   match c with
   | CPlane exact pl ps o =>
       let dec := all_decided exact pl ps in
-      list_close (map (plane_sd QOps pl) ps) (o_sd o) &&
-      list_close (map (plane_sd QOps pl) ps) (o_single_sd o) &&
-      list_close (map (plane_distance QOps pl) ps) (o_dist o) &&
-      vecs_close (map (plane_project QOps pl) ps) (o_proj o) &&
-      vecs_close (map (plane_mirror QOps pl) ps) (o_mirror o) &&
-      list_close (eqlist (plane_equation QOps pl)) (o_eq o) &&
-      list_close (eqlist (plane_equation QOps (flipped QOps pl))) (o_flip_eq o) &&
-      vec_close (canonical_point QOps pl) (o_canon o) &&
+      let m := mag pl ps in
+      list_close_mag m (map (plane_sd QOps pl) ps) (o_sd o) &&
+      list_close_mag m (map (plane_sd QOps pl) ps) (o_single_sd o) &&
+      list_close_mag m (map (plane_distance QOps pl) ps) (o_dist o) &&
+      vecs_close_mag m (map (plane_project QOps pl) ps) (o_proj o) &&
+      vecs_close_mag m (map (plane_mirror QOps pl) ps) (o_mirror o) &&
+      list_close_mag m (eqlist (plane_equation QOps pl)) (o_eq o) &&
+      list_close_mag m (eqlist (plane_equation QOps (flipped QOps pl))) (o_flip_eq o) &&
+      vec_close_mag m (canonical_point QOps pl) (o_canon o) &&
       (negb dec ||
        (Z_list_eqb (map (plane_sign QOps pl) ps) (o_sign o) &&
         nat_list_eqb (points_in_front_idx QOps pl false ps) (o_front o) &&
